@@ -154,11 +154,11 @@ def memo_key_defect(o: Outcome) -> Optional[Tuple[str, str]]:
         if getattr(g, "registry", False) or getattr(g, "unit_values", False) or getattr(g, "owner", None) is not None:
             continue
         key, val = e[2], e[3]
-        if not isinstance(key, TupleV):
+        if isinstance(key, (StrV, OpaqueV)):
             continue
         kids, vids = set(), set()
         _unit_ids_in(st, key, kids)
-        direct = {st.ufind(x.uid) for x in key.items if isinstance(x, UnitV)}
+        direct = {st.ufind(x.uid) for x in (key.items if isinstance(key, TupleV) else [key]) if isinstance(x, UnitV)}
         _unit_ids_in(st, val, vids)
         params = set()
         for a in list(o.args) + list(o.kwargs.values()):
